@@ -421,6 +421,12 @@ def _loop_comprehension(ctx, fi, name: str):
                     return False
                 target = b.targets[0]
                 env[loop.target.id] = ast.Tuple(elts=[ast.Name(id=e.id, ctx=ast.Load()) for e in b.targets[0].elts], ctx=ast.Load())
+            elif isinstance(b, ast.If) and not b.orelse and len(b.body) == 1 and isinstance(b.body[0], ast.Assign) and len(b.body[0].targets) == 1 \
+                    and isinstance(b.body[0].targets[0], ast.Name):
+                # if C: x = E   reads as   x = E if C else x
+                nm_ = b.body[0].targets[0].id
+                old_ = env.get(nm_, ast.Name(id=nm_, ctx=ast.Load()))
+                env[nm_] = ast.IfExp(test=_subst(b.test, env), body=_subst(b.body[0].value, env), orelse=old_)
             elif isinstance(b, ast.If) and not b.orelse and len(b.body) == 1 and isinstance(b.body[0], ast.Continue):
                 conds = conds + [ast.UnaryOp(op=ast.Not(), operand=_subst(b.test, env))]
             elif isinstance(b, ast.If) and not b.orelse:
@@ -1045,6 +1051,14 @@ def r123(ctx: Ctx) -> RuleReport:
     v = stores[0].value
     if isinstance(v, ast.Name):
         v = _loop_comprehension(ctx, gi, v.id) or v
+    # self.triples = helper(triples) with the helper building and returning the list in a loop
+    if isinstance(v, ast.Call) and isinstance(v.func, ast.Name) and v.func.id in gi.module.functions and len(v.args) == 1:
+        h_ = gi.module.functions[v.func.id]
+        rets_ = [r for r in walk_local(h_.node) if isinstance(r, ast.Return) and isinstance(r.value, ast.Name)]
+        if len(rets_) == 1 and len(h_.positional) == 1:
+            lc_ = _loop_comprehension(ctx, h_, rets_[0].value.id)
+            if lc_ is not None:
+                v, gi = lc_, h_
     # list(map(helper, triples)) reads as [helper(t) for t in triples]
     inner_ = v.args[0] if isinstance(v, ast.Call) and norm(v.func) in ('list', 'tuple') and len(v.args) == 1 else v
     if isinstance(inner_, ast.Call) and norm(inner_.func) == 'map' and len(inner_.args) == 2 and isinstance(inner_.args[0], ast.Name):
@@ -1061,8 +1075,23 @@ def r123(ctx: Ctx) -> RuleReport:
 
     colon_helpers = _colon_helpers(ctx)
 
+    def colon_expr(x) -> bool:
+        # <helper>(role)   or, written out:   role if role.startswith(':') else ':' + role   (either arm order)
+        if isinstance(x, ast.Call) and norm(x.func) in colon_helpers:
+            return True
+        if isinstance(x, ast.IfExp):
+            t, a, b = x.test, x.body, x.orelse
+            neg = isinstance(t, ast.UnaryOp) and isinstance(t.op, ast.Not)
+            t = t.operand if neg else t
+            if neg:
+                a, b = b, a
+            if isinstance(t, ast.Call) and isinstance(t.func, ast.Attribute) and t.func.attr == 'startswith' and t.args and try_fold(t.args[0]) == (True, ':'):
+                r_ = norm(t.func.value)
+                return norm(a) == r_ and isinstance(b, ast.BinOp) and isinstance(b.op, ast.Add) and try_fold(b.left) == (True, ':') and norm(b.right) == r_
+        return False
+
     def normalised(e) -> bool:
-        return isinstance(e, ast.Tuple) and len(e.elts) == 3 and isinstance(e.elts[1], ast.Call) and norm(e.elts[1].func) in colon_helpers
+        return isinstance(e, ast.Tuple) and len(e.elts) == 3 and colon_expr(e.elts[1])
     if comp.generators[0].ifs:
         rep.violation(key, gi.loc(stores[0]), f'the triples are filtered with {[norm(c) for c in comp.generators[0].ifs]}: some of the triples given to Graph() are dropped')
         return rep
